@@ -24,7 +24,7 @@ func TestDebugErrors(t *testing.T) {
 		if feat["error-mode"] > 0 {
 			return
 		}
-		o := refRun(p, inputs, ref.Policies[0])
+		o := refRun(p, inputs, ref.Policies[0], false)
 		k := o.Status
 		if o.RErr != nil {
 			k += ":" + o.RErr.Kind
